@@ -75,6 +75,7 @@ type saCtx struct {
 	pendingRetry   []saRej
 	pendingInvalid []saRej
 	nonTrivial     bool
+	earlyHandovers int
 }
 
 type saRej struct {
@@ -198,6 +199,9 @@ func (c *saCtx) recv(pktTerm string, data []byte, e saExpect, desc string) {
 	}
 	switch {
 	case created:
+		if c.sa.ConnDatagrams(nConnsBefore) > 1 {
+			c.earlyHandovers++
+		}
 		nc := c.sa.Conns[nConnsBefore]
 		out = u.App("SNewConn", u.Z(int64(nConnsBefore)), saHx(nc.ODCID), u.Opt(nc.HasRSCID, saHx(nc.RSCID)), u.B(nc.Verified), u.Z(nc.RTT), u.Z(int64(c.sa.ConnDatagrams(nConnsBefore)-1)))
 	case routed >= 0:
@@ -603,6 +607,7 @@ func runOneServerAccept(w *bufio.Writer, r *u.Rng, idx int, dist map[string]int)
 		fmt.Fprintf(w, "MONFAIL\t%s\t%s\t%s\n", f.key, f.desc, detail)
 	}
 	dist[fmt.Sprintf("shape=%d", shape)]++
+	dist["newconn-with-buffered-0rtt"] += c.earlyHandovers
 	dist[fmt.Sprintf("verify-mode=%d", vmode)]++
 	for _, d := range c.descs {
 		if i := strings.Index(d, "=>"); i >= 0 {
